@@ -73,8 +73,29 @@ def pathheap_cases(chk, events):
     chk.require(n >= 30, "too few PathHeap traversals (%d)" % n)
 
 
+def install_plugins():
+    """Somebody else's plug-ins live in the same process: a formatter and a validator extension
+    declared with `extend=True`, as the library documents for adding *new* public methods.  They
+    define a new public method each, and -- for their own use -- private helpers and attributes
+    that happen to carry the names of the library's private helpers.  `extend=True` copies public
+    callables only (formatter: names without a leading underscore), so nothing the library renders
+    or validates may change."""
+    import types
+    from d42.validation import Formatter
+    if getattr(Formatter, "format_verif_plugin_error", None) is not None:
+        return
+    private = [n for n in dir(Formatter) if n.startswith("_") and not n.startswith("__")
+               and callable(getattr(Formatter, n))]
+    body = {n: (lambda self, *a, **k: "<plugin helper>") for n in private}
+    body["format_verif_plugin_error"] = lambda self, error: "plugin"
+    body["_verif_note"] = "not callable"
+    types.new_class("VerifFormatterPlugin", (Formatter,), {"extend": True}, lambda ns: ns.update(body))
+
+
 def run(chk, prop):
     core.setup_repo_path()
+    if prop in ("C03", "C08"):
+        install_plugins()
     quick = chk.tier == "quick"
     depth = 2 if quick else 3
     per_seed = 10 if quick else None        # probes sampled per (schema, generated value)
